@@ -37,6 +37,12 @@ static inline BOOL QFile_remove(QFile *f) { g_removes++; if (DEV(f).role == ROLE
 /* readAll() of the binary-opened input: the whole file (A-fs); in text mode CR bytes would be dropped: another content */
 static inline QByteArray QIODevice_readAll(QIODevice *d)
 { QByteArray b; b.isnull = 0; b.owner = 0; b.len = nondet_int(); __CPROVER_assume(b.len >= 0); b.id = (d->role == ROLE_IN && d->open && !(d->mode & E_QIODevice_OpenModeFlag_Text)) ? g_in_data : nondet_int(); return b; }
+/* read(maxlen): at most maxlen bytes from the current position.  The block is the whole file only if the file is that short: its content
+ * identity is the file's or ANOTHER one (a proper part of the file), so compressing block by block is not compressing the file */
+static inline QByteArray QIODevice_read__longlong(QIODevice *d, long long maxlen)
+{ QByteArray b; b.isnull = 0; b.owner = 0; b.len = nondet_int(); __CPROVER_assume(b.len >= 0 && (maxlen < 0 || b.len <= maxlen));
+  b.id = (nondet_int() && d->role == ROLE_IN && d->open && !(d->mode & E_QIODevice_OpenModeFlag_Text)) ? g_in_data : nondet_int(); return b; }
+static inline BOOL QFileDevice_atEnd(QFileDevice *f) { return nondet_int() != 0; }
 /* qCompress(data, level): 4-byte big-endian length, then the zlib stream = 2-byte header, raw deflate of data, 4-byte Adler-32 (A-zlib) */
 int __CPROVER_uninterpreted_zlib_of(int data); int g_zlen;
 static inline QByteArray qCompress__QByteArray_int(QByteArray data, int level)
